@@ -24,6 +24,9 @@ def _int(val=0, base=_bl._MISSING):
         t = type(val)
         user_int = (base is _bl._MISSING and not isinstance(val, (CrossHairValue, int, float, str, bytes, bytearray))
                     and hasattr(t, "__int__") and getattr(t, "__module__", "builtins") != "builtins")
+        if not user_int and not isinstance(val, CrossHairValue) and not isinstance(base, CrossHairValue):
+            # concrete fast path; calling the original patch here would be re-dispatched to this wrapper
+            return int(val) if base is _bl._MISSING else int(val, base)
     if user_int:
         return _int(val.__int__())
     return _orig_int(val, base)
